@@ -533,6 +533,8 @@ theorem pres_watchCancel (st : St) (a : Nat) : Pres st (watchCancel st a) := by
 theorem grow_with_slots (st : St) (l : List SlotRec) : Grow st { st with slots := l } := Grow.of_eq rfl rfl
 theorem grow_with_errno (st : St) (e : Int) : Grow st { st with errno := e } := Grow.of_eq rfl rfl
 theorem grow_with_children (st : St) (l : List Proc) : Grow st { st with children := l } := Grow.of_eq rfl rfl
+theorem grow_with_stillRunning (st : St) (b : Bool) : Grow st { st with stillRunning := b } := Grow.of_eq rfl rfl
+theorem grow_with_inRun (st : St) (b : Bool) : Grow st { st with inRun := b } := Grow.of_eq rfl rfl
 
 theorem pres_doRegister (st : St) (k : Int) (reg : St → St × Nat) (h : ∀ s, Pres s (reg s).1) :
     Pres st (doRegister st k reg) := by
@@ -579,6 +581,7 @@ theorem pres_runAct (st : St) (act : Act) : Pres st (runAct st act) := by
         · exact Pres.refl _
         · exact (grow_with_children _ _).pres
       · exact Pres.refl _
+    · exact (grow_with_stillRunning _ _).pres
     · exact Pres.refl _
 
 theorem pres_runActs (acts : List Act) : ∀ st : St,
@@ -1045,7 +1048,9 @@ theorem pres_sigCb (fuel : Nat) (st : St) (a : Nat) (s : Int) : Pres st (sigCb f
     · exact pres_fireUser _ _ _ _
     · split
       · exact pres_onSigchld _ _ _
-      · exact Pres.refl _
+      · split
+        · exact (grow_with_stillRunning _ _).pres
+        · exact Pres.refl _
   · exact Pres.refl _
 
 theorem pres_sigwatchLoopT (fuel : Nat) : ∀ (st : St) (s : Int) (this : Option Nat), Pres st (sigwatchLoopT fuel st s this).1 := by
@@ -1172,6 +1177,50 @@ theorem pres_tick (fuel : Nat) (st : St) (nohang : Bool) : Pres st (tick fuel st
       · exact ((grow_nextTimerMsec _).trans (grow_ppoll _ _)).pres
       · exact ((grow_nextTimerMsec _).trans (grow_ppoll _ _)).pres.trans (pres_tickAfterPoll _ _ _)
 
+theorem grow_ppollRun (st : St) (t : Option Int) : Grow st (ppollRun st t).1 := by
+  unfold ppollRun
+  split
+  · exact grow_ppoll _ _
+  · split
+    · exact ((grow_ppoll st t).trans (Grow.of_eq rfl rfl : Grow (ppoll st t).1
+        { (ppoll st t).1 with runPolls := (ppoll st t).1.runPolls + 1, stillRunning := false })).trans (grow_emit _ _)
+    · exact (grow_ppoll st t).trans (Grow.of_eq rfl rfl : Grow (ppoll st t).1
+        { (ppoll st t).1 with runPolls := (ppoll st t).1.runPolls + 1 })
+
+theorem pres_runIter (fuel : Nat) (st : St) : Pres st (runIter fuel st) := by
+  unfold runIter
+  split
+  · exact Pres.refl _
+  · split
+    · exact (grow_nextTimerMsec _).pres
+    · split
+      · exact ((grow_nextTimerMsec _).trans (grow_ppollRun _ _)).pres
+      · exact ((grow_nextTimerMsec _).trans (grow_ppollRun _ _)).pres.trans (pres_tickAfterPoll _ _ _)
+
+theorem pres_runLoop (fuel : Nat) (n : Nat) : ∀ st : St, Pres st (runLoop fuel n st) := by
+  induction n with
+  | zero => intro st; unfold runLoop; exact pres_outOfFuel st
+  | succ k ih =>
+    intro st
+    unfold runLoop
+    split
+    · exact Pres.refl _
+    · split
+      · exact Pres.refl _
+      · exact (pres_runIter _ _).trans (ih _)
+
+theorem grow_run_start (st : St) : Grow st { (watchSignal st 2 0 (-5)).1 with stillRunning := true, inRun := true, runPolls := 0 } :=
+  (grow_watchSignal st 2 0 (-5)).trans (Grow.of_eq rfl rfl)
+
+theorem pres_run (fuel : Nat) (st : St) : Pres st (run fuel st) := by
+  unfold run
+  split
+  · exact Pres.refl _
+  · split
+    · exact (grow_run_start st).pres.trans (pres_runLoop _ _ _)
+    · exact (((grow_run_start st).pres.trans (pres_runLoop _ _ _)).trans (grow_with_inRun _ _).pres).trans
+        (pres_watchCancel _ _)
+
 theorem grow_destroyNotify (st : St) (a : Nat) : Grow st (destroyNotify st a) := by
   unfold destroyNotify
   split
@@ -1225,8 +1274,9 @@ theorem pres_applyOp' (st : St) (op : Op) : Pres st (applyOp' st op) := by
         · exact Grow.pres (Grow.of_eq rfl rfl)
         · exact Grow.pres (Grow.of_eq rfl rfl)
         · exact Grow.pres (Grow.of_eq rfl rfl)
-        · exact pres_tick _ _ _
-        · exact pres_tick _ _ _
+        · exact (grow_with_stillRunning _ _).pres.trans (pres_tick _ _ _)
+        · exact (grow_with_stillRunning _ _).pres.trans (pres_tick _ _ _)
+        · exact pres_run _ _
         · exact pres_destroy _
         · exact Pres.refl _
 
